@@ -228,11 +228,45 @@ def r6(run):
                reason="stream-outlives-live-task")
 
 
+def r7(run):
+    ls = c03.live_shape(run)
+    if ls is None:
+        run.missing("%s|live-body" % C.READ, "live task not found")
+        return
+    live, recvs, sends = ls
+    n = 0
+    for r in recvs:
+        for bb, si in live.switches():
+            if si["kind"] != "variant":
+                continue
+            cond = si["cond"]
+            if cond[0] == "call" and cond[1].fn.endswith("Future::poll"):
+                continue
+            u = q.unawait(cond)
+            if not (u[0] == "call" and q.same_call(u[1], r)):
+                continue
+            err_targets = []
+            for (t, lab, m) in si["edges"]:
+                ms = m if isinstance(m, tuple) else (m,)
+                if any(x in ("Err",) for x in ms):
+                    err_targets.append(t)
+            if not err_targets:
+                continue
+            n += 1
+            reach = live.reachable_blocks(err_targets)
+            again = [c.sp for c in recvs if c.bb in reach] + [c.sp for c in sends if c.bb in reach]
+            run.ob("%s|live|receive-error-ends-stream" % C.READ, not again, live.blocks[bb]["term"]["sp"],
+                   "when the broadcast receiver reports an error (Lagged: frames were dropped, or Closed) the live task ends: no further recv or delivery is reachable (%s)" % again,
+                   reason="stream-continues-past-a-gap")
+    run.ob("%s|live|receive-error-tested" % C.READ, n >= 1, live.sp, "the result of broadcast recv() is branched on (Ok vs error)", reason="mechanism-not-found")
+
+
 RULES = [
     ("R-C11-1", "live phase: no frame is delivered with count >= limit; every delivered frame is counted; the count is seeded from history", r1),
     ("R-C11-2", "a limit hit during the historical scan ends the stream (no further delivery, no hand-off)", r2),
     ("R-C11-3", "tail: the historical scan is launched only when tail is false", r3),
     ("R-C11-4", "synthetic frames flow only into the subscriber's channel, are never stored/broadcast, never counted", r4),
     ("R-C11-5", "threshold only when following without limit, after the scan, before done (shared with R-C03-4)", c03.r4),
+    ("R-C11-7", "a follower that cannot keep up: any receive error (Lagged) ends the live task - the stream never continues past a gap", r7),
     ("R-C11-6", "only the history scan and the live task hold strong senders; the heartbeat holds a WeakSender and stops when upgrade fails", r6),
 ]
